@@ -766,6 +766,8 @@ func (m *model) rulePlumbing(s *report.Sink) {
 	var cell ssa.Value
 	if u, ok := newCall.Call.Args[0].(*ssa.UnOp); ok && u.Op == token.MUL {
 		cell = u.X
+	} else if u, ok := m.resolve(newCall.Call.Args[0]).(*ssa.UnOp); ok && u.Op == token.MUL {
+		cell = u.X // built by a helper with a single return (`schedulerConfig(p).New()`): the literal it returns
 	}
 	if cell == nil {
 		s.Unk("S29", "cff.NewScheduler|Config value", m.ipos(newCall), "Config.New is not called on a locally built Config")
